@@ -25,14 +25,17 @@ type countResp struct {
 	next    tq.Handler
 }
 
-func (c *countResp) Reply(v tq.EncoderDecoder) (int, error) { c.replies = append(c.replies, v); return 0, nil }
+func (c *countResp) Reply(v tq.EncoderDecoder) (int, error) {
+	c.replies = append(c.replies, v)
+	return 0, nil
+}
 func (c *countResp) ReplyWithContext(ctx context.Context, v tq.EncoderDecoder, w ...tq.Writer) (int, error) {
 	return c.Reply(v)
 }
 func (c *countResp) Write(p *tq.Packet) (int, error) { return 0, nil }
-func (c *countResp) Next(n tq.Handler)              { c.next = n }
-func (c *countResp) RegisterWriter(tq.Writer)       {}
-func (c *countResp) Context(ctx context.Context)    {}
+func (c *countResp) Next(n tq.Handler)               { c.next = n }
+func (c *countResp) RegisterWriter(tq.Writer)        {}
+func (c *countResp) Context(ctx context.Context)     {}
 
 func mustBody(t *testing.T, v tq.EncoderDecoder) []byte {
 	b, err := v.MarshalBinary()
